@@ -17,7 +17,7 @@ pub fn lexemes() -> Vec<&'static str> {
         "a", "<", ">", "/", " ", "=", "\"", "'", "&", ";", "#", "!", "-", "?", "x", "\n", "\r", "\r\n", "\t", "\x0C",
         "0", "9", "A", "F", "X", "Z", "f", "z", "[", "]", "`", "\0", "\u{7f}", "\u{e9}", "\u{feff}", "\u{fffe}",
         "\u{1F600}", "--", "doctype", "DOCTYPE", "public", "SYSTEM", "[CDATA[", "script", "amp", "amp;", "not",
-        "notin;", "#x", "t", "r", "pt", P16,
+        "notin;", "#x", "t", "r", "pt", P16, "SCRIPT", "T", "PUBLIC", "system",
     ]
 }
 
@@ -169,13 +169,13 @@ pub fn witness(cfg: &TokCfg, sched: &[Feed]) -> String {
 
 pub fn configs(all: bool) -> Vec<TokCfg> {
     let mut v = vec![];
-    let starts: Vec<u8> = if all { (0..6).collect() } else { vec![0, 2] };
+    let starts: Vec<u8> = if all { (0..6).collect() } else { vec![0, 2, 4] };
     for s in starts {
         for last in [None, Some("t"), Some("script"), Some("xx")] {
             for cdata in [false, true] {
                 if !all {
-                    // quick: {Data,none,false}, {Data,none,true}, {RCDATA,t,false}
-                    let keep = (s == 0 && last.is_none()) || (s == 2 && last == Some("t") && !cdata);
+                    // quick: {Data,none,cdata}, {RCDATA,t,no cdata}, {script data,script,no cdata}
+                    let keep = (s == 0 && last.is_none() && cdata) || (s == 2 && last == Some("t") && !cdata) || (s == 4 && last == Some("script") && !cdata);
                     if !keep {
                         continue;
                     }
@@ -387,7 +387,7 @@ pub fn main(ctx: &Ctx, lines: bool) -> ! {
         }));
     }
     let simd = simd_windows(ctx, &mode, &stats, ctx.tier.pick(34, 50));
-    ctx.assume("lexeme alphabet of 53 symbols: one representative per character class any spec state distinguishes, plus multi-character lexemes (keywords, entity names, 16 x's to enter the SIMD stride); characters outside these classes are assumed to behave like their class representative");
+    ctx.assume("lexeme alphabet of 57 symbols: one representative per character class any spec state distinguishes, plus multi-character lexemes (keywords in both cases, entity names, 16 x's to enter the SIMD stride); characters outside these classes are assumed to behave like their class representative");
     ctx.assume("state key = abstract implementation dump (token buffers reduced to min(len,2) + the predicates the code tests) x R-tok control state; every transition is validated with two closers (EOF, and \"'>-->]]> which flushes every token buffer) so merged states have verified contents");
     ctx.assume("R-tok: reference transliteration of the WHATWG tokenizer (engine/src/rtok.rs); entity table exported from python's html.entities.html5; parse errors are not compared");
     ctx.assume("start states limited to the six the fragment algorithm can select; switch policy t/title/textarea->RCDATA, r/style/xmp/iframe/noembed/noframes->RAWTEXT, script->script data, pt/plaintext->PLAINTEXT");
